@@ -108,6 +108,9 @@ type End struct {
 	// undelivered + unread bytes (a slow or stalled reader exerts back-pressure, as TCP does).
 	RecvWindow  int
 	writerWake  chan struct{}
+	wlock       chan struct{} // held for the duration of a Write under flow control
+	wdl         time.Time     // write deadline
+	bpCounted   bool
 	writersWait int
 	deliveries  int
 
@@ -142,7 +145,7 @@ func newNetwork(e *Engine) *Network { return &Network{e: e} }
 func (n *Network) newPipe() *Pipe {
 	p := &Pipe{ID: len(n.pipes), net: n}
 	mk := func(side string) *End {
-		return &End{pipe: p, name: fmt.Sprintf("c%d.%s", p.ID, side), e: n.e, readWake: make(chan struct{}, 1), writerWake: make(chan struct{}, 1),
+		return &End{pipe: p, name: fmt.Sprintf("c%d.%s", p.ID, side), e: n.e, readWake: make(chan struct{}, 1), writerWake: make(chan struct{}, 1), wlock: make(chan struct{}, 1),
 			CutAt: -1, Latency: n.Latency, Seg: n.Seg}
 	}
 	p.Cli, p.Srv = mk("cli"), mk("srv")
@@ -259,12 +262,41 @@ func (c *End) Read(p []byte) (int, error) {
 }
 
 func (c *End) Write(p []byte) (int, error) {
-	if err := c.waitWindow(len(p)); err != nil {
-		return 0, err
+	windowed := false
+	c.peer.mu.Lock()
+	windowed = c.peer.RecvWindow > 0
+	c.peer.mu.Unlock()
+	var n int
+	var err error
+	if !windowed {
+		c.mu.Lock()
+		n, err = c.writeLocked(p, false)
+	} else {
+		// Flow control: like the kernel, accept what fits into the peer's window and block
+		// for the rest; like the net package, keep other writers of this connection out
+		// until the whole call is over; honour the write deadline.
+		if err = c.lockWrite(); err == nil {
+			c.bpCounted = false
+			for {
+				var room int
+				room, err = c.waitRoom(len(p) - n)
+				if err != nil {
+					break
+				}
+				c.mu.Lock()
+				var k int
+				k, err = c.writeLocked(p[n:n+room], n > 0)
+				c.mu.Unlock()
+				n += k
+				if err != nil || n == len(p) {
+					break
+				}
+			}
+			<-c.wlock
+		}
+		c.mu.Lock()
 	}
-	c.mu.Lock()
 	defer c.mu.Unlock()
-	n, err := c.writeLocked(p)
 	ka := c.isKA(p)
 	if ka {
 		c.KeepaliveWrites++
@@ -278,19 +310,29 @@ func (c *End) Write(p []byte) (int, error) {
 	return n, err
 }
 
-func (c *End) writeLocked(p []byte) (int, error) {
+// lockWrite serialises the writers of one connection (a channel, so that waiting blocks durably).
+func (c *End) lockWrite() error {
+	c.wlock <- struct{}{}
+	return nil
+}
+
+// writeLocked hands p to the network. cont: p continues a write call whose first part was
+// already accepted (not a new write for the fault counters). c.mu held.
+func (c *End) writeLocked(p []byte, cont bool) (int, error) {
 	if c.closed {
 		return 0, &net.OpError{Op: "write", Net: "tcp", Err: errClosed}
 	}
-	c.Writes++
+	if !cont {
+		c.Writes++
+	}
 	if c.writeBroken {
 		return 0, &net.OpError{Op: "write", Net: "tcp", Err: os.NewSyscallError("write", syscall.EPIPE)}
 	}
-	isKA := c.isKA(p)
+	isKA := !cont && c.isKA(p)
 	if isKA {
 		c.kaSeen++
 	}
-	if (c.FailWriteAt > 0 && c.Writes == c.FailWriteAt) || (isKA && c.FailKeepaliveAt > 0 && c.kaSeen == c.FailKeepaliveAt) {
+	if !cont && (c.FailWriteAt > 0 && c.Writes == c.FailWriteAt) || (isKA && c.FailKeepaliveAt > 0 && c.kaSeen == c.FailKeepaliveAt) {
 		// A failed socket write is terminal for the connection, as in TCP.
 		c.writeBroken = true
 		c.e.Fault("conn.write_error")
@@ -321,8 +363,9 @@ func (c *End) writeLocked(p []byte) (int, error) {
 	return len(p), nil
 }
 
-// waitWindow blocks the writer while the peer's receive window is full.
-func (c *End) waitWindow(n int) error {
+// waitRoom blocks the writer while the peer's receive window is full and returns how many of
+// the n bytes may be handed over now. A write deadline that passes meanwhile ends the wait.
+func (c *End) waitRoom(n int) (int, error) {
 	peer := c.peer
 	first := true
 	for {
@@ -330,30 +373,54 @@ func (c *End) waitWindow(n int) error {
 		w := peer.RecvWindow
 		held := len(peer.inflight) + len(peer.rbuf)
 		gone := peer.closed || peer.rTerm != nil
-		if w <= 0 || gone || held == 0 || held+n <= w {
+		room := n
+		if w > 0 && !gone && w-held < n {
+			room = w - held
+		}
+		if room > 0 {
 			if !first {
 				peer.writersWait--
 			}
-			peer.freeWindow() // pass the baton to the next blocked writer, if any
 			peer.mu.Unlock()
-			return nil
+			return room, nil
 		}
 		if first {
 			peer.writersWait++
 			first = false
-			c.e.Fault("conn.writer_blocked_by_backpressure")
+			if !c.bpCounted {
+				c.bpCounted = true
+				c.e.Fault("conn.writer_blocked_by_backpressure")
+			}
 		}
 		peer.mu.Unlock()
 		c.mu.Lock()
 		closed := c.closed
+		dl := c.wdl
 		c.mu.Unlock()
-		if closed {
+		fail := func(err error) (int, error) {
 			peer.mu.Lock()
 			peer.writersWait--
 			peer.mu.Unlock()
-			return &net.OpError{Op: "write", Net: "tcp", Err: errClosed}
+			return 0, &net.OpError{Op: "write", Net: "tcp", Err: err}
 		}
-		<-peer.writerWake
+		if closed {
+			return fail(errClosed)
+		}
+		if dl.IsZero() {
+			<-peer.writerWake
+			continue
+		}
+		d := time.Until(dl)
+		if d <= 0 {
+			c.e.Fault("conn.write_deadline_exceeded")
+			return fail(timeoutError{})
+		}
+		tm := time.NewTimer(d)
+		select {
+		case <-peer.writerWake:
+			tm.Stop()
+		case <-tm.C:
+		}
 	}
 }
 
@@ -459,12 +526,17 @@ type simAddr string
 func (a simAddr) Network() string { return "sim" }
 func (a simAddr) String() string  { return string(a) }
 
-func (c *End) LocalAddr() net.Addr                { return simAddr(c.name) }
-func (c *End) RemoteAddr() net.Addr               { return simAddr(c.peer.name) }
-func (c *End) SetDeadline(t time.Time) error      { return nil }
-func (c *End) SetReadDeadline(t time.Time) error  { return nil }
-func (c *End) SetWriteDeadline(t time.Time) error { return nil }
-func (c *End) Name() string                       { return c.name }
+func (c *End) LocalAddr() net.Addr               { return simAddr(c.name) }
+func (c *End) RemoteAddr() net.Addr              { return simAddr(c.peer.name) }
+func (c *End) SetDeadline(t time.Time) error     { return nil }
+func (c *End) SetReadDeadline(t time.Time) error { return nil }
+func (c *End) SetWriteDeadline(t time.Time) error {
+	c.mu.Lock()
+	c.wdl = t
+	c.mu.Unlock()
+	return nil
+}
+func (c *End) Name() string { return c.name }
 
 // ---------------------------------------------------------------------------
 // scheduler side
